@@ -2,6 +2,7 @@ import Golib.Model.C10Ring
 import Golib.Model.C10Sync
 import Golib.Model.C10Large
 import Golib.Model.C10Copy
+import Golib.Model.C10SyncSpec
 
 namespace Golib.C10
 open Golib.Proto
@@ -13,6 +14,7 @@ def runCase (hdr : List String) (ops : List String) : List String :=
   | "ringL" :: rest => runLargeCase rest ops
   | "ringC" :: rest => runRingCopyCase rest ops
   | "syncC" :: rest => runSyncCopyCase rest ops
+  | "syncS" :: rest => runSyncSpecCase rest ops
   | "sync" :: rest => runSyncCase rest ops
   | "synccap" :: rest => runCapCase rest ops
   | _ => "bad-op" :: ops.map fun _ => "bad-op"
